@@ -72,6 +72,14 @@ Definition struct_alg (name : str) : option str :=
   else if seq name (lit "pault.ag/go/debian/control.SHA512FileHash") then Some (lit "sha512")
   else None.
 
+(* all-or-nothing map *)
+Definition mapM_opt {A B : Type} (g : A -> option B) : list A -> option (list B) :=
+  fix go (l : list A) : option (list B) :=
+    match l with
+    | [] => Some []
+    | e :: r => match g e, go r with Some x, Some xs => Some (x :: xs) | _, _ => None end
+    end.
+
 (* decodeStructValue *)
 Fixpoint decode_kind (f : fd) (k : SchemaDefs.fkind) (t : str) : option xval :=
   match k with
@@ -92,13 +100,7 @@ Fixpoint decode_kind (f : fd) (k : SchemaDefs.fkind) (t : str) : option xval :=
       let delim := if SchemaDefs.has_delim f && negb (seq (SchemaDefs.delim f) []) then SchemaDefs.delim f else lit " " in
       let els := if seq delim (lit " ") then fields v
                  else match delim with d :: _ => GS.split d v | [] => [v] end in
-      let fix go (l : list str) : option (list xval) :=
-        match l with
-        | [] => Some []
-        | e :: r => match decode_kind f k' (trim_set strip e), go r with
-                    | Some x, Some xs => Some (x :: xs) | _, _ => None end
-        end in
-      option_map XList (go els)
+      option_map XList (mapM_opt (fun e => decode_kind f k' (trim_set strip e)) els)
   | SchemaDefs.KPtr _ | SchemaDefs.KOther => None
   end.
 
@@ -129,12 +131,7 @@ Fixpoint marshal_kind (f : fd) (v : xval) : option str :=
   | XChg _ _ _ _ _ => None
   | XList l =>
       let delim := if SchemaDefs.has_delim f && negb (seq (SchemaDefs.delim f) []) then SchemaDefs.delim f else lit " " in
-      let fix go (l : list xval) : option (list str) :=
-        match l with
-        | [] => Some []
-        | x :: r => match marshal_kind f x, go r with Some a, Some b => Some (a :: b) | _, _ => None end
-        end in
-      option_map (GS.join delim) (go l)
+      option_map (GS.join delim) (mapM_opt (marshal_kind f) l)
   | XUnsupported => None
   end.
 
